@@ -68,7 +68,10 @@ pub struct Execution { pub outcome: Outcome, pub branching: Vec<usize>, pub choi
 fn blocked_on(g: &State, t: usize) -> Option<(u64, usize)> {
     if !g.cached { return None; }
     if let Status::AtYield { site, id } = g.status[t] {
-        if site == pdf::verif::SITE_GET_BEFORE_CACHE { if let Some(&o) = g.computing.get(&id) { if o != t { return Some((id, o)); } } }
+        // also when the computing thread is this very thread: the compute-once cache would make it wait for its own unfinished
+        // computation for ever. Correct code never gets here (the recursion guard, checked before this site, reports the
+        // re-entrance as an error), so it is not a state the scheduler may step over
+        if site == pdf::verif::SITE_GET_BEFORE_CACHE { if let Some(&o) = g.computing.get(&id) { return Some((id, o)); } }
     }
     None
 }
